@@ -1,4 +1,4 @@
-\* Measured: 9 configurations (<= 6 units): 117 127 distinct states, depth 2, 20-45 s on 4 workers.
+\* Measured: 9 configurations (<= 6 units), validator sessions of <= 3 deliveries: 177 213 distinct / 1 539 083 generated states, depth 4, 15-50 s on 6 workers.
 \* the repaired design: every property holds
 CONSTANTS
   Configs <- SmallConfigs
